@@ -89,6 +89,11 @@ func runC18(c *run.Ctx) {
 	flags := []string{}
 	nondefault := 0
 	fail := g.P(0.25)
+	pExp := 0.35
+	if class == "severe" || class == "fatal" { // where stop-on-error matters, combine it with every other flag more often
+		fail = g.P(0.6)
+		pExp = 0.5
+	}
 	verb := rng.Pick(g, []string{"", "", "-q", "-v"})
 	outFile := ""
 	if g.P(0.35) {
@@ -109,7 +114,7 @@ func runC18(c *run.Ctx) {
 		} else {
 			opts.Format = "txt"
 		}
-		if g.P(0.35) {
+		if g.P(pExp) {
 			opts.Exposure = true
 			args = append(args, "--exposure")
 			r.Ev("flag_exposure", 1)
